@@ -147,6 +147,8 @@ class MiniEval:
             raise AnalysisError(f"minieval: unknown name `{e.id}`")
         if isinstance(e, ast.Tuple):
             return tuple(self._ev(x, env) for x in e.elts)
+        if isinstance(e, ast.List):
+            return [self._ev(x, env) for x in e.elts]
         if isinstance(e, ast.IfExp):
             return self._ev(e.body, env) if self._truth(self._ev(e.test, env)) else self._ev(e.orelse, env)
         if isinstance(e, ast.BinOp):
@@ -190,6 +192,15 @@ class MiniEval:
             d = dotted(e.func)
             if d in ("ord", "chr", "int", "len", "str", "abs", "bool") and len(e.args) == 1 and not e.keywords:
                 return {"ord": ord, "chr": chr, "int": int, "len": len, "str": str, "abs": abs, "bool": bool}[d](self._ev(e.args[0], env))
+            if d in ("list", "tuple", "reversed", "sorted") and len(e.args) == 1 and not e.keywords:
+                v = self._ev(e.args[0], env)
+                if isinstance(v, (list, tuple)):
+                    v = list(v)
+                    return {"list": v, "tuple": tuple(v), "reversed": v[::-1], "sorted": sorted(v)}[d]
+            if d == "range" and 1 <= len(e.args) <= 3 and not e.keywords:
+                a = [self._ev(x, env) for x in e.args]
+                if all(isinstance(x, int) and not isinstance(x, bool) for x in a):
+                    return list(range(*a))
             if d == "isinstance" and len(e.args) == 2:
                 v = self._ev(e.args[0], env)
                 names = [norm(x) for x in (e.args[1].elts if isinstance(e.args[1], ast.Tuple) else [e.args[1]])]
